@@ -181,6 +181,13 @@ def oracle_batch_histories(ck, rng):
             explicit = [None, None, int(rng.integers(0, 6))][int(rng.integers(0, 3))] if (it % 2 and it >= 2) else None
             if explicit is not None and explicit in b.images:
                 explicit = None
+            if it % 2 == 0 and truth:
+                # the batch is used between additions (add_tomogram updates it in place): later results must reflect the additions
+                try:
+                    b.average(); b.average_split(n_set=1, seed=0)
+                    hist.append(["average"])
+                except Exception:  # noqa
+                    pass
             b.add_tomogram(tomo, mol, image_id=explicit)
             hist.append(["add_tomogram", nm, explicit])
             truth.append((tomo, pos, mark, rot))
@@ -205,6 +212,21 @@ def oracle_batch_histories(ck, rng):
             detail = f"{len(b.molecules)} molecules (expected {cnt}); max deviation {np.abs(got - want).max():.3f}"
         except Exception as e:  # noqa
             ok, detail = False, f"raised {type(e).__name__}: {e}"
+        if ok:
+            try:
+                hs = np.asarray(b.average_split(n_set=1, seed=1, squeeze=False))[0]
+                loaded = np.asarray(b.asnumpy())
+                if len(loaded) != cnt or not np.allclose(loaded.mean(axis=0), want, atol=1e-4):
+                    ok, detail = False, "the sub-volumes the batch loads are not those of the tomograms that were added"
+                else:
+                    # the two half maps average disjoint, exhaustive, non-empty parts of the molecules currently in the batch
+                    sol, *_ = np.linalg.lstsq(np.stack([h_.ravel() for h_ in loaded]).T.astype(np.float64), np.stack([hs[0].ravel(), hs[1].ravel()]).T.astype(np.float64), rcond=None)
+                    memb = sol > 1e-3
+                    if cnt >= 2 and cnt <= 100 and np.linalg.matrix_rank(np.stack([h_.ravel() for h_ in loaded])) == cnt:
+                        if not (np.all(memb.sum(axis=1) == 1) and memb[:, 0].any() and memb[:, 1].any()):
+                            ok, detail = False, f"half maps after the history do not split the {cnt} current molecules into two disjoint exhaustive parts"
+            except Exception as e:  # noqa
+                ok, detail = False, f"average_split raised {type(e).__name__}: {e}"
         if not ok:
             ck.violation(what=f"batch average after {hist} is not the count-weighted mean of the tomograms that were added: {detail}",
                          inp={"history": hist, "corner_safe": cs}, key={"site": "batch-history", "auto_id_after_gap": any(h[0] == "filter-out" for h in hist), "corner_safe": cs},
